@@ -737,7 +737,42 @@ fn push_violation(rep: &mut Report, sig: String, detail: Value) {
     rep.violation(sig, detail);
 }
 
+
+/// Watchdog: a generated case that never returns (a docset that stops making progress) must not
+/// hang the check. After a generous wall-clock limit the run is reported INCONCLUSIVE (exit 2)
+/// together with the cases still in flight; it is never reported as "held".
+static IN_FLIGHT: std::sync::Mutex<Vec<u64>> = std::sync::Mutex::new(Vec::new());
+
+struct InFlight(u64);
+impl InFlight {
+    fn enter(case: u64) -> InFlight {
+        IN_FLIGHT.lock().unwrap_or_else(|e| e.into_inner()).push(case);
+        InFlight(case)
+    }
+}
+impl Drop for InFlight {
+    fn drop(&mut self) {
+        let mut g = IN_FLIGHT.lock().unwrap_or_else(|e| e.into_inner());
+        if let Some(i) = g.iter().position(|c| *c == self.0) {
+            g.remove(i);
+        }
+    }
+}
+
+fn start_watchdog(prop: &'static str, limit: std::time::Duration, seed: u64) {
+    std::thread::spawn(move || {
+        std::thread::sleep(limit);
+        let cases = IN_FLIGHT.lock().unwrap_or_else(|e| e.into_inner()).clone();
+        println!(
+            "INCONCLUSIVE property={prop} watchdog: cases {cases:?} (stream main, seed {seed}) still running after {}s - a call into tantivy does not return (possible non-termination); replay one of them with --replay to investigate",
+            limit.as_secs()
+        );
+        std::process::exit(2);
+    });
+}
+
 fn run_case(case: u64, rng: &mut Rng, rep: &mut Report, quick: bool) {
+    let _in_flight = InFlight::enter(case);
     let cfg = if quick {
         CorpusCfg { max_big: 4600, class_weights: [2, 4, 4, 3, 3] }
     } else {
@@ -792,7 +827,10 @@ fn run_case(case: u64, rng: &mut Rng, rep: &mut Report, quick: bool) {
 fn main() {
     let ctx = Ctx::from_env("C13", "exploration");
     let quick = ctx.quick();
-    let n = ctx.scale(60, 320) as u64;
+    if ctx.replay.is_none() {
+        start_watchdog("C13", std::time::Duration::from_secs(std::env::var("VERIF_WATCHDOG_SECS").ok().and_then(|v| v.parse().ok()).unwrap_or(if quick { 240 } else { 1500 })), ctx.seed);
+    }
+    let n = ctx.scale(60, 600) as u64;
     let rep = run_cases(&ctx, "main", n, |case, rng, rep| run_case(case, rng, rep, quick));
     simple_finish(
         &ctx,
